@@ -227,7 +227,12 @@ class PopenExecutor(concurrent.futures.Executor):
 
         # submitting new futures after join() would be bad,
         # so we make this internal and only call it from shutdown()
-        for future in list(self._futures):
+        # take the snapshot under the lock: a submit() that passed its shutdown check is either
+        # already registered or will find the flag set
+        with self._lock:
+            futures = list(self._futures)
+
+        for future in futures:
             # a cancelled or failed job (timeout, Popen error) must not end the wait for the others,
             # its error is delivered to whoever asks for its result
             with contextlib.suppress(Exception):
